@@ -349,7 +349,7 @@ class SendTerminates(Unit):
                  [-rng.randrange(1, 1 << 70) for _ in range(20)]:
             cnt += 1
             s = Sink()
-            kind, val = native_call(VarInt.send, v, s, timeout=0.5)
+            kind, val = native_call(VarInt.send, v, s, timeout=5.0)
             if kind == 'hang':
                 fails.append(dict(call='VarInt.send(%d, sink)' % v, observed='did not terminate within 0.5 s',
                                   witness='send-negative'))
